@@ -119,6 +119,9 @@ def Heap.newArr (h : Heap) (mu : Bool) (xs : List Val) (cap : Nat) : Heap × Ref
 def Heap.newMap (h : Heap) (mu : Bool) (kvs : List (String × Val)) : Heap × Ref :=
   ({ h with mstores := h.mstores ++ [kvs], objs := h.objs ++ [Obj.map mu h.mstores.length] }, h.objs.length)
 
+/-- Hand the new object out as a new handle. -/
+def pushNew (p : Heap × Ref) : Heap × Out := (p.1.push (.ref p.2), .pushed 1)
+
 /-- Overwrite `vs` into `st` starting at `i` (caller guarantees `i + |vs| ≤ |st|`). -/
 def writeList (st : List Val) (i : Nat) (vs : List Val) : List Val :=
   st.take i ++ vs ++ st.drop (i + vs.length)
@@ -286,20 +289,20 @@ def copyN : Nat → Heap → List Nat → Val → Option (Heap × List Nat × Va
         match foldVals (copyN n) h caps.tail (h.content s off len) with
         | none => none
         | some (h1, caps1, cs) =>
-          let (h2, r') := h1.newArr true cs (caps.headD 0)
-          some (h2, caps1, .ref r')
+          let p := h1.newArr true cs (caps.headD 0)
+          some (p.1, caps1, .ref p.2)
       | .map _ s =>
         match foldVals (copyN n) h caps ((h.mstore s).map Prod.snd) with
         | none => none
         | some (h1, caps1, cs) =>
-          let (h2, r') := h1.newMap true (((h.mstore s).map Prod.fst).zip cs)
-          some (h2, caps1, .ref r')
+          let p := h1.newMap true (((h.mstore s).map Prod.fst).zip cs)
+          some (p.1, caps1, .ref p.2)
       | .err p =>
         match copyN n h caps p with
         | none => none
         | some (h1, caps1, p') =>
-          let (h2, r') := h1.allocObj (.err p')
-          some (h2, caps1, .ref r')
+          let p := h1.allocObj (.err p')
+          some (p.1, caps1, .ref p.2)
       | .dead => none
     | _ => some (h, caps, v)
 
@@ -326,16 +329,16 @@ def freezeN : Nat → Heap → Memo → Val → Option (Heap × Memo × Val)
           match foldVals (freezeN n) h memo (h.content s off len) with
           | none => none
           | some (h1, memo1, fs) =>
-            let (h2, r') := h1.newArr false fs fs.length
-            some (h2, (r, r') :: memo1, .ref r')
+            let p := h1.newArr false fs fs.length
+            some (p.1, (r, p.2) :: memo1, .ref p.2)
       | .arr false s off len _ =>
         match foldVals (freezeN n) h memo (h.content s off len) with
         | none => none
         | some (h1, memo1, fs) =>
           if fs = h.content s off len then some (h1, memo1, v)
           else
-            let (h2, r') := h1.newArr false fs fs.length
-            some (h2, memo1, .ref r')
+            let p := h1.newArr false fs fs.length
+            some (p.1, memo1, .ref p.2)
       | .map true s =>
         match memo.find r with
         | some r' => some (h, memo, .ref r')
@@ -343,16 +346,16 @@ def freezeN : Nat → Heap → Memo → Val → Option (Heap × Memo × Val)
           match foldVals (freezeN n) h memo ((h.mstore s).map Prod.snd) with
           | none => none
           | some (h1, memo1, fs) =>
-            let (h2, r') := h1.newMap false (((h.mstore s).map Prod.fst).zip fs)
-            some (h2, (r, r') :: memo1, .ref r')
+            let p := h1.newMap false (((h.mstore s).map Prod.fst).zip fs)
+            some (p.1, (r, p.2) :: memo1, .ref p.2)
       | .map false s =>
         match foldVals (freezeN n) h memo ((h.mstore s).map Prod.snd) with
         | none => none
         | some (h1, memo1, fs) =>
           if fs = (h.mstore s).map Prod.snd then some (h1, memo1, v)
           else
-            let (h2, r') := h1.newMap false (((h.mstore s).map Prod.fst).zip fs)
-            some (h2, memo1, .ref r')
+            let p := h1.newMap false (((h.mstore s).map Prod.fst).zip fs)
+            some (p.1, memo1, .ref p.2)
       | .err _ => some (h, memo, v)
       | .dead => none
     | _ => some (h, memo, v)
@@ -418,14 +421,11 @@ def stepAppend (h : Heap) (x : Nat) (items : List Nat) (newcap : Nat) : Heap × 
         if len + vs.length ≤ cap then
           -- in place: writes the spare capacity of the shared backing array
           let h1 := h.setA s (writeList (h.astore s) (off + len) vs)
-          let (h2, r') := h1.allocObj (.arr true s off (len + vs.length) cap)
-          (h2.push (.ref r'), .pushed 1)
+          pushNew (h1.allocObj (.arr true s off (len + vs.length) cap))
         else
-          let (h1, r') := h.newArr true (h.content s off len ++ vs) newcap
-          (h1.push (.ref r'), .pushed 1)
+          pushNew (h.newArr true (h.content s off len ++ vs) newcap)
       | .arr false s off len _ =>
-        let (h1, r') := h.newArr true (h.content s off len ++ vs) 0
-        (h1.push (.ref r'), .pushed 1)
+        pushNew (h.newArr true (h.content s off len ++ vs) 0)
       | .dead => (h, .bad)
       | _ => (h, .err .invalidArgFirst)
     | _ => (h, .err .invalidArgFirst)
@@ -451,12 +451,10 @@ def stepSlice (h : Heap) (x lo hi : Nat) (newcap : Nat) : Heap × Out :=
             let u := clampIdx highIdx len
             if mu then
               -- a new header over the SAME backing array
-              let (h1, r') := h.allocObj (.arr true s (off + l) (u - l) (cap - l))
-              (h1.push (.ref r'), .pushed 1)
+              pushNew (h.allocObj (.arr true s (off + l) (u - l) (cap - l)))
             else
               -- copy (repaired O4)
-              let (h1, r') := h.newArr true (((h.content s off len).drop l).take (u - l)) newcap
-              (h1.push (.ref r'), .pushed 1)
+              pushNew (h.newArr true (((h.content s off len).drop l).take (u - l)) newcap)
         | .dead => (h, .bad)
         | _ => (h, .err .notIndexable)
       | .str _ => (h, .bad)
@@ -476,8 +474,7 @@ def stepAdd (h : Heap) (x y : Nat) : Heap × Out :=
           if mu ≠ mu2 then (h, .err .invalidOperator)
           else if mu ∧ len2 = 0 then (h.push (.ref r), .pushed 1)         -- `return o, nil`
           else
-            let (h1, r') := h.newArr true (h.content s off len ++ h.content s2 off2 len2) 0
-            (h1.push (.ref r'), .pushed 1)
+            pushNew (h.newArr true (h.content s off len ++ h.content s2 off2 len2) 0)
         | .dead => (h, .bad)
         | _ => (h, .err .invalidOperator)
       | _ => (h, .err .invalidOperator)
@@ -500,6 +497,17 @@ def stepDelete (h : Heap) (x k : Nat) : Heap × Out :=
     | _ => (h, .err .invalidArgFirst)
   | _, _ => (h, .bad)
 
+/-- `array.Value = append(array.Value[:st], items...)`: in place when the capacity suffices (the header
+is rewritten over the same backing array), else into a fresh backing array. -/
+def spliceWrite (h : Heap) (r : Ref) (s off len cap st : Nat) (items : List Val) (newcap : Nat) : Heap :=
+  let newLen := st + items.length
+  if newLen ≤ cap then
+    (h.setA s (writeList (h.astore s) (off + st) items)).setObj r (.arr true s off newLen cap)
+  else
+    let c := max newcap newLen
+    { h with astores := h.astores ++ [(h.content s off len).take st ++ items ++ List.replicate (c - newLen) Val.undef],
+             objs := h.objs.set r (.arr true h.astores.length 0 newLen c) }
+
 /-- `splice(array[, start[, count[, items…]]])`. -/
 def stepSplice (h : Heap) (x : Nat) (args : List Nat) (newcap delcap : Nat) : Heap × Out :=
   match h.regs[x]?, regsOf h args with
@@ -521,16 +529,8 @@ def stepSplice (h : Heap) (x : Nat) (args : List Nat) (newcap delcap : Nat) : He
             let cont := h.content s off len
             let deleted := (cont.drop st).take dc
             let items := avs.drop 2 ++ cont.drop (st + dc)
-            let newLen := st + items.length
-            let h1 :=
-              if newLen ≤ cap then
-                (h.setA s (writeList (h.astore s) (off + st) items)).setObj r (.arr true s off newLen cap)
-              else
-                let c := max newcap newLen
-                { h with astores := h.astores ++ [cont.take st ++ items ++ List.replicate (c - newLen) Val.undef],
-                         objs := h.objs.set r (.arr true h.astores.length 0 newLen c) }
-            let (h2, r') := h1.newArr true deleted delcap
-            (h2.push (.ref r'), .pushed 1)
+            let h1 := spliceWrite h r s off len cap st items newcap
+            pushNew (h1.newArr true deleted delcap)
       | .dead => (h, .bad)
       | _ => (h, .err .invalidArgFirst)
     | _ => (h, .err .invalidArgFirst)
@@ -542,12 +542,10 @@ def stepImmutable (h : Heap) (consume : Bool) (x : Nat) : Heap × Out :=
     match h.obj r with
     | .arr true s off len cap =>
       let h0 := if consume then { h.setObj r .dead with regs := h.regs.set x .undef } else h
-      let (h1, r') := h0.allocObj (.arr false s off len cap)
-      (h1.push (.ref r'), .pushed 1)
+      pushNew (h0.allocObj (.arr false s off len cap))
     | .map true s =>
       let h0 := if consume then { h.setObj r .dead with regs := h.regs.set x .undef } else h
-      let (h1, r') := h0.allocObj (.map false s)
-      (h1.push (.ref r'), .pushed 1)
+      pushNew (h0.allocObj (.map false s))
     | .dead => (h, .bad)
     | _ => (h.push (.ref r), .pushed 1)
   | some v => (h.push v, .pushed 1)
@@ -569,18 +567,17 @@ def step (h : Heap) : Op → Heap × Out
   | .lit l => (h.push l.toVal, .pushed 1)
   | .mkArr elems cap =>
     match regsOf h elems with
-    | some vs => let (h1, r) := h.newArr true vs cap; (h1.push (.ref r), .pushed 1)
+    | some vs => pushNew (h.newArr true vs cap)
     | none => (h, .bad)
   | .mkMap kvs =>
     match regsOf h (kvs.map Prod.snd) with
     | some vs =>
       let m := ((kvs.map Prod.fst).zip vs).foldl (fun acc kv => minsert kv.1 kv.2 acc) []
-      let (h1, r) := h.newMap true m
-      (h1.push (.ref r), .pushed 1)
+      pushNew (h.newMap true m)
     | none => (h, .bad)
   | .mkErr x =>
     match h.regs[x]? with
-    | some v => let (h1, r) := h.allocObj (.err v); (h1.push (.ref r), .pushed 1)
+    | some v => pushNew (h.allocObj (.err v))
     | none => (h, .bad)
   | .immutable c x => stepImmutable h c x
   | .idxGet x i =>
@@ -646,5 +643,40 @@ def snapN : Nat → Heap → Val → String
       | .dead => "(dead)"
 
 def snap (h : Heap) (v : Val) : String := snapN h.fuel h v
+
+/-! ### Source facts the model relies on (compared with the regenerated `Tengo.Gen.Immut` in Props/C09)
+
+`indexSetTypes`: only `*Array` and `*Map` have an `IndexSet` (`indexSet` above; every other receiver
+answers not-index-assignable). `storageWrites`: every statement of the root package that writes the
+storage of an array/map wrapper — `Array.IndexSet`/`Map.IndexSet` (`indexSet`), `builtinAppend` on an
+`*Array` (`stepAppend`, in place within capacity), `builtinDelete` on a `*Map` (`stepDelete`),
+`builtinSplice` (`stepSplice`), `freezeObject` filling the containers it has just allocated (`freezeN`),
+`buildRange` (fresh array of `range`, outside the operations) and `fixDecodedObject` (constants while
+decoding bytecode, before any program runs). `storageAliases`: wrappers built over existing storage —
+OpImmutable (`stepImmutable`) and slicing a mutable array (`stepSlice`). -/
+def indexSetTypes : List String := ["Array", "Map"]
+
+def storageWrites : List (String × String × String) := [
+  ("Array.IndexSet", "Array", "elem"),
+  ("Map.IndexSet", "Map", "elem"),
+  ("buildRange", "Array", "append"),
+  ("buildRange", "Array", "field"),
+  ("builtinAppend", "Array", "append"),
+  ("builtinDelete", "Map", "delete"),
+  ("builtinSplice", "Array", "field"),
+  ("fixDecodedObject", "Array", "elem"),
+  ("fixDecodedObject", "ImmutableArray", "elem"),
+  ("fixDecodedObject", "ImmutableMap", "elem"),
+  ("fixDecodedObject", "Map", "elem"),
+  ("freezeObject", "ImmutableArray", "elem"),
+  ("freezeObject", "ImmutableMap", "elem")]
+
+def storageAliases : List (String × String × String) := [
+  ("VM.run", "Array", "Array"),
+  ("VM.run", "ImmutableArray", "Array"),
+  ("VM.run", "ImmutableMap", "Map")]
+
+/-- `export e` compiles to `e; IMMUT; RET 1`. -/
+def exportEmits : List String := ["OpImmutable", "OpReturn"]
 
 end Tengo.Model.Heap9
